@@ -226,6 +226,17 @@ impl<'a> Ctx<'a> {
             }
             10 if self.f.calls && !self.modules.is_empty() => {
                 let m = self.r.pick(&self.modules).clone();
+                if self.r.chance(0.12) && !self.in_template {
+                    // the callee itself is selected by data
+                    let arg = self.expr(depth + 1);
+                    return Expr::Call(Box::new(Expr::Call(Box::new(member(id(&m), "pickf")), vec![id("s")])), vec![arg]);
+                }
+                if self.r.chance(0.1) && !self.in_template {
+                    // the result is an object that is descended into
+                    let o = self.object_leaf();
+                    let a = self.scalar_leaf();
+                    return member(member(Expr::Call(Box::new(member(id(&m), "wrap")), vec![a, o]), "q"), *self.r.pick(&["x", "k", "p"]));
+                }
                 if self.r.chance(0.45) {
                     // the value depends on everything below an object: a whole-object dependency
                     let o = if self.r.chance(0.25) && !self.in_template { id(*self.r.pick(&["list", "l2"])) } else { self.object_leaf() };
@@ -550,6 +561,13 @@ impl<'a> Ctx<'a> {
             }
             if self.f.nested_for {
                 pool.push((id("ll"), Kind::ScalarList, true, None));
+            }
+            if self.f.calls && !self.modules.is_empty() {
+                // lists without a path of their own whose items still move
+                let m = self.modules[0].clone();
+                pool.push((Expr::Call(Box::new(member(id(&m), "rev")), vec![id("list")]), Kind::Record, false, Some("k")));
+                pool.push((bin("||", id("list"), Expr::Arr(vec![])), Kind::Record, false, Some("k")));
+                pool.push((Expr::Call(Box::new(member(id(&m), "rev")), vec![id("l2")]), Kind::Scalar, false, Some("*this")));
             }
             if self.f.script_lists && !self.modules.is_empty() {
                 // a list that lives in a script module: items have a script path, never a data path
@@ -892,7 +910,12 @@ impl<'a> Ctx<'a> {
                 attrs.push(Attr { name: "p".into(), val: AttrVal::Bind(self.top_expr()) });
                 self.scope.push(ScopeVar { name: "sv".into(), kind: Kind::Any, assignable: false, no_path: false });
                 self.scope.push(ScopeVar { name: "si".into(), kind: Kind::Index, assignable: false, no_path: false });
-                let inner = vec![Node::Text(self.text_parts())];
+                let mut inner = vec![Node::Text(self.text_parts())];
+                if self.r.chance(0.5) {
+                    // each slot value also in a binding of its own
+                    inner.push(Node::El { tag: "text".into(), attrs: vec![], children: vec![Node::Text(vec![TextPart::Bind(member(id("sv"), "v"))])] });
+                    inner.push(Node::El { tag: "text".into(), attrs: vec![Attr { name: "title".into(), val: AttrVal::Bind(id("si")) }], children: vec![] });
+                }
                 self.scope.pop();
                 self.scope.pop();
                 let content = if self.r.chance(0.3) {
@@ -1165,8 +1188,8 @@ pub fn catalogue_component(kind: &str) -> Value {
     }
 }
 
-const WXS_INLINE: &str = "exports.j = function(a){ return JSON.stringify(a) }; exports.j.__id = '@PATH@#m:j'; exports.f = function(a){ return 'f(' + a + ')' }; exports.f.__id = '@PATH@#m:f'; exports.o = { g: function(a){ return 'g' } }; exports.o.g.__id = '@PATH@#m:o.g'; exports.k = 7; exports.rows = [{k: 1, v: 'r1', w: 'w1', sub: [{k: 11, v: 's1'}], h: function(){ return 'h0' }}, {k: 2, v: 'r2', w: 'w2', sub: [], h: function(){ return 'h1' }}]; exports.rows[0].h.__id = '@PATH@#m:rows.0.h'; exports.rows[1].h.__id = '@PATH@#m:rows.1.h'";
-const WXS_EXT: &str = "exports.j = function(a){ return JSON.stringify(a) }; exports.j.__id = 'utils/s:j'; exports.f = function(a){ return 's(' + a + ')' }; exports.f.__id = 'utils/s:f'; exports.o = { g: function(a){ return 'sg' } }; exports.o.g.__id = 'utils/s:o.g'; exports.k = 9; exports.rows = [{k: 1, v: 'e1', w: 'x1', sub: [{k: 11, v: 't1'}], h: function(){ return 'h0' }}, {k: 2, v: 'e2', w: 'x2', sub: [], h: function(){ return 'h1' }}]; exports.rows[0].h.__id = 'utils/s:rows.0.h'; exports.rows[1].h.__id = 'utils/s:rows.1.h'";
+const WXS_INLINE: &str = "exports.j = function(a){ return JSON.stringify(a) }; exports.j.__id = '@PATH@#m:j'; exports.f = function(a){ return 'f(' + a + ')' }; exports.f.__id = '@PATH@#m:f'; exports.o = { g: function(a){ return 'g' } }; exports.o.g.__id = '@PATH@#m:o.g'; exports.k = 7; exports.rev = function(a){ return a && a.slice ? a.slice().reverse() : a }; exports.wrap = function(a, b){ return {p: a, q: b} }; exports.pickf = function(n){ return n === 'x' || n === 'a' ? exports.f : exports.j }; exports.rows = [{k: 1, v: 'r1', w: 'w1', sub: [{k: 11, v: 's1'}], h: function(){ return 'h0' }}, {k: 2, v: 'r2', w: 'w2', sub: [], h: function(){ return 'h1' }}]; exports.rows[0].h.__id = '@PATH@#m:rows.0.h'; exports.rows[1].h.__id = '@PATH@#m:rows.1.h'";
+const WXS_EXT: &str = "exports.j = function(a){ return JSON.stringify(a) }; exports.j.__id = 'utils/s:j'; exports.f = function(a){ return 's(' + a + ')' }; exports.f.__id = 'utils/s:f'; exports.o = { g: function(a){ return 'sg' } }; exports.o.g.__id = 'utils/s:o.g'; exports.k = 9; exports.rev = function(a){ return a && a.slice ? a.slice().reverse() : a }; exports.wrap = function(a, b){ return {p: a, q: b} }; exports.pickf = function(n){ return n === 'x' || n === 'a' ? exports.f : exports.j }; exports.rows = [{k: 1, v: 'e1', w: 'x1', sub: [{k: 11, v: 't1'}], h: function(){ return 'h0' }}, {k: 2, v: 'e2', w: 'x2', sub: [], h: function(){ return 'h1' }}]; exports.rows[0].h.__id = 'utils/s:rows.0.h'; exports.rows[1].h.__id = 'utils/s:rows.1.h'";
 
 // ---------------------------------------------------------------------------------------------
 
